@@ -243,6 +243,13 @@ def case_randomsample(ctx, inp):
     from dask.bag.core import random_state_data_python
     parts, prob, seed = inp["parts"], inp["prob"], inp["seed"]
     b = mk_bag(parts)
+    if inp.get("instance"):
+        # a random.Random instance as random_state: two equal instances must give the same sample
+        s1 = list(mk_bag(parts).random_sample(prob, random.Random(seed)).compute(scheduler="sync"))
+        s2 = list(mk_bag(parts).random_sample(prob, random.Random(seed)).compute(scheduler="threads"))
+        if s1 != s2:
+            ctx.fail("random_sample with equal random.Random instances differs", observed=[s1, s2])
+        ctx.branch("random-instance")
     s = b.random_sample(prob, seed)
     r1 = s.map_partitions(list).compute(scheduler="sync")
     nparts = s.npartitions
@@ -396,10 +403,14 @@ def generate(ctx):
         yield "tree", {"sizes": [rng.choice([0, 1, 1, 2]) for _ in range(n)], "se": rng.choice([2, 3, 4, 8, None, False])}
     yield "randomsample", {"parts": [[1, 2, 3, 4], [], [5, 6, 7], [8]], "prob": 0.5, "seed": 1234, "by_part": True,
                            "processes": True}      # one multiprocessing run in every tier
+    for sd in (0, 0, 1):      # random_state = 0 is falsy: it must still be a fixed seed
+        yield "randomsample", {"parts": [[1, 2, 3, 4, 5, 6], [7, 8, 9], [], [10, 11, 12, 13]], "prob": 0.5, "seed": sd,
+                               "by_part": True, "instance": True}
     for _ in range(ctx.n(120, 1200)):
         parts = gen_parts(rng)
         yield "randomsample", {"parts": parts, "prob": rng.choice([0.0, 0.2, 0.5, 0.5, 0.8, 1.0]),
-                               "seed": rng.getrandbits(30), "by_part": rng.random() < 0.3,
+                               "seed": rng.choice([0, rng.getrandbits(30), rng.getrandbits(30), rng.getrandbits(4)]),
+                               "by_part": rng.random() < 0.3, "instance": rng.random() < 0.15,
                                "processes": ctx.thorough() and rng.random() < 0.02}
     yield "sample", {"parts": [[0], [1], [2]], "k": 4, "se": None, "seed": 0}
     yield "sample", {"parts": [[1, 2], [3]], "k": 0, "se": None, "seed": 0}
